@@ -51,6 +51,9 @@ WellFormed(c, e) ==
              /\ 0 <= m.st /\ m.st <= m.et /\ m.et < e.nwords
   /\ \A i \in 1..(Len(e.ms) - 1) : e.ms[i].r >= e.ms[i + 1].r            \* non-increasing confidence
   /\ e.total <= e.nlines
+  \* "number of input words": the white-box token count, which itself is bounded by the white-space separated pieces of the
+  \* input (a piece gives at most one word; recorded independently of the tokenizer)
+  /\ ("nfields" \in DOMAIN e => e.nwords <= e.nfields)
 
 (* C04: Match / MatchFrom have no effect on the classifier or the caller's bytes *)
 PureMatch(e) == e.unchanged /\ e.docs[1] = e.docs[2] /\ e.dict[1] = e.dict[2]
